@@ -208,6 +208,8 @@ def gen_pipeline(rng, local=None):
             "maxnodes": rng.choice([0, 1, 2]), "sbatch_fail_stage": rng.choice([0, 0, 0, 1]),
             # stages configured by auto-config commands; one of them (not the first) may fail
             "resub": rng.random() < 0.3,
+            # (pipelines built from files) the first job of stage 1 rewrites stage 2's configuration file while it runs
+            "regen": (not auto) and n >= 2 and rng.random() < 0.4,
             "auto": auto, "autofail": (rng.randint(2, n) if auto and n >= 2 and rng.random() < 0.2 else 0)}
 
 
@@ -242,6 +244,17 @@ def run_pipeline(pscn, seed, debug=False):
                              per_node_batch_size=pscn["size"], max_nodes=(pscn["maxnodes"] or None),
                              num_parallel_processes_per_node=2)
         pfile = os.path.join(base, "pipeline.json")
+        stagejobs = [list(st["jobs"]) for st in pscn["stages"]]
+        if pscn.get("regen") and not pscn.get("auto") and len(files) >= 2:
+            # what stage 2 has to run is what its file says once stage 1 is done: the original jobs plus one more
+            cfg = GenericCommandConfiguration()
+            extra = "s2z"
+            for j in pscn["stages"][1]["jobs"]:
+                cfg.add_job(GenericCommandParameters(name=j, command=f"vjob {j}", blocked_by=set(pscn["stages"][1]["blk"].get(j, []))))
+            cfg.add_job(GenericCommandParameters(name=extra, command=f"vjob {extra}"))
+            newf = os.path.join(base, "stage2_new.json")
+            cfg.dump(newf)
+            w.regen = {pscn["stages"][0]["jobs"][0]: {"src": newf, "dst": files[1], "stage": 2}}
         if pscn.get("auto"):
             PipelineManager.create_config_from_commands([f"vautoconfig {k}" for k in range(1, len(files) + 1)], pfile, sp)
             w.autoconfig = {str(k): {"src": f, "rc": 1 if pscn.get("autofail") == k else 0} for k, f in enumerate(files, 1)}
@@ -281,7 +294,11 @@ def run_pipeline(pscn, seed, debug=False):
     finally:
         w.close()
         shutil.rmtree(base, ignore_errors=True)
-    return {"scn": {"n": len(pscn["stages"])}, "pscn": pscn, "ev": w.trace, "moves": w.moves, "seed": seed,
+    ireg = next((i for i, e in enumerate(w.trace) if e["e"] == "regen"), None)
+    ist2 = next((i for i, e in enumerate(w.trace) if e.get("dir") == "output-stage2"), len(w.trace))
+    if ireg is not None and ireg < ist2:       # the job that rewrites stage 2's file ran before stage 2 was configured
+        stagejobs[1] = stagejobs[1] + ["s2z"]
+    return {"scn": {"n": len(pscn["stages"]), "stagejobs": stagejobs}, "pscn": pscn, "ev": w.trace, "moves": w.moves, "seed": seed,
             "driver": ["pipeline", pscn, seed]}
 
 
@@ -297,7 +314,9 @@ def encode_pipeline(tr, sid):
         k = e["e"]
         x = None
         if k == "promote" and e.get("create") and stage(e):
-            x = {"e": "create", "k": stage(e)}
+            # the jobs the stage's submission was created with: the first status of that directory
+            st0 = next((y for y in tr["ev"] if y.get("e") == "status" and stage(y) == stage(e)), None)
+            x = {"e": "create", "k": stage(e), "jobs": sorted(st0["jobs"]) if st0 else []}
         elif k == "status" and stage(e):
             x = {"e": "status", "k": stage(e), "complete": e["complete"]}
         elif k == "sbatch" and e.get("ok") and stage(e):
@@ -317,4 +336,4 @@ def encode_pipeline(tr, sid):
         if x is not None:
             evs.append(x)
             idx.append(i)
-    return {"scn": {"id": sid, "n": tr["scn"]["n"]}, "ev": evs}, idx
+    return {"scn": {"id": sid, "n": tr["scn"]["n"], "stagejobs": [sorted(x) for x in tr["scn"].get("stagejobs", [])]}, "ev": evs}, idx
